@@ -31,10 +31,14 @@
 #include "configuration.h"
 #include "message.h"
 
+#include <fcntl.h>
 #include <limits.h>
 #include <stdio.h>
 #include <stdlib.h>
 #include <string.h>
+#include <sys/stat.h>
+#include <sys/types.h>
+#include <unistd.h>
 
 
 
@@ -53,10 +57,12 @@
  */
 int snoopy_output_fileoutput (char const * const logMessage, char const * const arg)
 {
-    char   filePathBuf[PATH_MAX] = {'\0'};
-    char * filePath = filePathBuf;
-    FILE  *fp;
-    int    charCount;
+    char    filePathBuf[PATH_MAX] = {'\0'};
+    char  * filePath = filePathBuf;
+    char  * record;
+    size_t  recordLen;
+    int     fd;
+    ssize_t bytesWritten;
 
     // Check if output file is properly configured
     if (0 == strcmp(arg, "")) {
@@ -66,14 +72,31 @@ int snoopy_output_fileoutput (char const * const logMessage, char const * const 
     // Parse the output file specification (i.e. for %{datetime} or similar tags)
     snoopy_message_generateFromFormat(filePath, PATH_MAX, PATH_MAX, arg);
 
+    // Assemble the whole record (message + newline) first, so that it can be
+    // handed to the kernel with a single write() call. Buffered stdio would
+    // split records larger than its buffer into multiple writes, letting
+    // concurrent writers interleave their output with ours.
+    recordLen = strlen(logMessage) + 1;
+    record    = malloc(recordLen);
+    if (NULL == record) {
+        return SNOOPY_OUTPUT_FAILURE;
+    }
+    memcpy(record, logMessage, recordLen - 1);
+    record[recordLen - 1] = '\n';
+
     // Try to open file in append mode
-    fp = fopen(filePath, "a");
-    if (NULL == fp) {
+    fd = open(filePath, O_WRONLY | O_APPEND | O_CREAT | O_CLOEXEC, 0666);
+    if (-1 == fd) {
+        free(record);
         return SNOOPY_OUTPUT_FAILURE;
     }
 
-    // Try to print to file
-    charCount = fprintf(fp, "%s\n", logMessage);
-    fclose(fp);
-    return charCount;
+    // Append the record in one go
+    bytesWritten = write(fd, record, recordLen);
+    close(fd);
+    free(record);
+    if (bytesWritten < 0) {
+        return SNOOPY_OUTPUT_FAILURE;
+    }
+    return (int) bytesWritten;
 }
